@@ -211,13 +211,34 @@ class KeysView(SV):
         return self.d.pvc_iter(I)
 
     def pvc_set(self, I):
-        raise Unsupported("set(dict.keys()) of a symbolic dict")
+        return OpaqueSet(I, f"set(keys({self.d.tag}))")
 
     def pvc_len(self, I):
         return SInt(self.d.n)
 
     def pvc_contains(self, I, k):
         return self.d.pvc_contains(I, k)
+
+
+class OpaqueSet(SV):
+    """A set value that is only used to build error messages (set differences, emptiness tests): its size is an
+    unconstrained non-negative integer, so both outcomes of any test on it are explored (sound over-approximation)."""
+
+    pvc_type = "set"
+
+    def __init__(self, I, tag):
+        self.n = I.path.fresh_int("opaque_set_size")
+        I.path.assume(self.n >= 0)
+        self.tag = tag
+
+    def pvc_len(self, I):
+        return SInt(self.n)
+
+    def pvc_binop(self, I, op, other, swapped):
+        return OpaqueSet(I, f"setop({self.tag})")
+
+    def pvc_truth(self, I):
+        return self.n > 0
 
 
 def real_wrap(z):
@@ -313,6 +334,15 @@ class SSetV(SV):
         s = SSeq(SInt(card_f(t)), lambda i: SymV(srt_f(t, i)), f"sorted({t})")
         s.pvc_type = "list"
         return s
+
+    def pvc_binop(self, I, op, other, swapped):
+        import ast as _ast
+
+        if isinstance(op, (_ast.Sub, _ast.BitOr, _ast.BitAnd)) and self.container == "set":
+            return OpaqueSet(I, f"setop({self.term})")
+        if self.container != "set":
+            raise PyRaise("TypeError")  # list - set etc.
+        return NotImplemented
 
     def pvc_eq(self, I, other):
         if isinstance(other, SSetV):
